@@ -2,6 +2,7 @@
 
 R = "@REPO@/lib/upipe/"
 M = "@REPO@/lib/upipe-modules/"
+T = "@REPO@/lib/upipe-ts/"
 H = "@VERIF@/harness/"
 E = "@VERIF@/engine/"
 
@@ -25,7 +26,8 @@ PIPEX = CORE + MODS + [E + "vmock_upump.c", E + "simfd.c"]
 BLK = [R + "umem_alloc.c", R + "ubuf_block_mem.c", R + "ubuf_mem_common.c"]
 VS = [E + "vsched.c"]
 HARNESSES = {
-    "pipex_cat": {"src": [H + "pipex_cat.c"] + PIPEX},
+    "c14_rechunk": {"src": [H + "c14_rechunk.c", T + "upipe_ts_sync.c", T + "upipe_ts_check.c", T + "upipe_ts_align.c"] + PIPEX},
+    "pipex_cat": {"src": [H + "pipex_cat.c", T + "upipe_ts_sync.c", T + "upipe_ts_check.c", T + "upipe_ts_align.c"] + PIPEX},
     "c07_lin": {"src": [H + "c07_lin.c"] + VS},
     "c19_window": {"src": [H + "c19_window.c", R + "ubuf_mem_common.c", R + "ubuf_mem.c", R + "ubuf_pic_mem.c", R + "ubuf_pic_common.c", R + "ubuf_pic.c",
                            R + "ubuf_sound_mem.c", R + "ubuf_sound_common.c", R + "ubuf_block_mem.c", R + "uref_pic_flow.c", R + "udict_inline.c",
@@ -297,4 +299,106 @@ CHECKS["C19"] = {
     "rule": "state = one (format, size, manager configuration[, resize chain]) buffer; transition = one window / resize request; non-trivial = buffers reached through a resize",
     "bounds": {"quick": "all formats, sizes 1-2 granules, resize chains of length 1", "thorough": "sizes 1-3 granules, resize chains of length 2"},
     "assumptions": DEFAULT_ASSUME,
+}
+
+
+def _c14_jobs(tier):
+    q = tier == "quick"
+    dl = 70 if q else 840
+    jobs = [("c14_rechunk", ["--pipe", "agg", "--maxn", 9 if q else 12, "--deadline", dl]),
+            ("c14_rechunk", ["--pipe", "chunk", "--maxn", 10 if q else 13, "--deadline", dl])]
+    def sh(pipe, n, alphabet, maxn, minn=0):
+        for i in range(n):
+            jobs.append(("c14_rechunk", ["--pipe", pipe, "--alphabet", alphabet, "--minn", minn, "--maxn", maxn, "--shard", "%d/%d" % (i, n), "--deadline", dl]))
+    if q:
+        sh("ts_sync", 8, "470001", 7)
+        sh("ts_align", 3, "470001", 6)
+        sh("ts_check", 3, "470001", 7)
+    else:
+        sh("ts_sync", 12, "470001", 8)
+        sh("ts_sync", 8, "4700", 10, 9)
+        sh("ts_align", 8, "470001", 7)
+        sh("ts_align", 4, "4700", 9, 8)
+        sh("ts_check", 8, "470001", 8)
+    return jobs
+
+CHECKS["C14"] = {
+    "engine": "seqx", "design_ref": "DESIGN.md section 3 C14",
+    "technique": "exhaustive enumeration of all byte streams over a 2-3 symbol alphabet x all cuttings into buffers (segmented chunks, inserted empty buffers, discontinuity) x configurations on the real aggregate / chunk_stream / ts_sync / ts_check / ts_align pipes, vs reference re-chunkers and the uncut run",
+    "level_text": "Every byte stream up to the stated length (TS pipes: all strings over {0x47,0x00,0x01}; aggregate/chunk: position-coded octets), cut in every possible way into buffers, each chunk also as two segments, with an empty buffer inserted at every position, for every configuration (aggregate MTU 1/3/4/8 with and without input-size hint; chunk (mtu,align) in 5 settings; TS packet size 2-4 x sync count 2-3), run on the real pipes and released: outputs must be in-order non-overlapping pieces of the input, aggregate/chunk must output every accepted octet exactly once but for the unaligned tail with every unit within the configured size, TS units must be whole packets starting with 0x47 and equal to a reference synchroniser's, chunk/ts_sync/ts_align outputs must equal those of the uncut run, release must return (watchdog) and leave nothing allocated. Bounded, not a proof.",
+    "level_note": "Packet sizes 2-4 stand for 188 (the code is size-generic); options are set while nothing is pending. Outside: longer streams, alphabets beyond 3 symbols, option changes mid-stream.",
+    "jobs": {"quick": _c14_jobs("quick"), "thorough": _c14_jobs("thorough")},
+    "rule": "state = one (stream, configuration); transition = one cutting/variant of it run on the real pipe; non-trivial = runs that produced at least one output unit",
+    "bounds": {"quick": "ts_sync/ts_check: all streams of length <= 7 over 3 symbols; ts_align <= 6; aggregate <= 9, chunk <= 10 octets; all cuttings, 2-segment chunks, one empty buffer at every position, discontinuity at every chunk (ts_sync)",
+               "thorough": "ts_sync/ts_check <= 8 (3 symbols) and ts_sync <= 10 (2 symbols); ts_align <= 7 / 9; aggregate <= 12, chunk <= 13"},
+    "assumptions": DEFAULT_ASSUME + ["the reference synchroniser follows the documented mechanism (N sync octets one packet apart; at release, while locked, whole packets starting with the sync octet)"],
+    "job_timeout": {"quick": 200, "thorough": 1200},
+}
+
+
+CAT_ROWS = ["idem", "skip", "htons", "delay", "setattr", "setflowdef", "probe_uref", "match_attr", "null", "dup", "time_limit", "genaux",
+            "buffer", "rate_limit", "qsink", "agg", "chunk", "ts_sync", "ts_check", "ts_align"]
+CAT_HEAVY = {"buffer": 1, "rate_limit": 1, "ts_sync": 1}
+
+def _cat_jobs(oracle, tier, rows=CAT_ROWS, pools=(0, 2)):
+    q = tier == "quick"
+    jobs = []
+    for r in rows:
+        d = (5 if q else 6) - CAT_HEAVY.get(r, 0)
+        for pool in pools:
+            jobs.append(("pipex_cat", ["--row", r, "--oracle", oracle, "--pool", pool, "--depth", d, "--deadline", 75 if q else 840]))
+    return jobs
+
+_CAT_BOUNDS = {"quick": "20 catalogue pipes x pool depth {0,2}: every sequence of up to 5 operations (4 for buffer, rate_limit, ts_sync) over the row's alphabet "
+                        "(set_flow_def F1/F2/foreign, 4 input shapes incl. empty and 2-segment buffers, set_output S0/S1(rejecting)/NULL, sink answer toggle, flush, "
+                        "every option setter x 3-4 values, subpipe alloc/set_output/release, pump dispatch, release), followed by release of everything and a run of the event loop to quiescence",
+               "thorough": "same alphabet, one operation deeper"}
+_CAT_NOTE = ("Pipe-private state is not readable from outside, so histories are not merged: the full tree is enumerated up to the depth. "
+             "Catalogue: idem skip htons delay setattr setflowdef probe_uref match_attr null dup(+2 output subpipes) time_limit genaux buffer rate_limit "
+             "queue_sink+queue_source(one thread, mock loop) aggregate chunk_stream ts_sync ts_check ts_align; other pipe types are outside the bound.")
+
+CHECKS["C01"] = {
+    "engine": "pipex", "design_ref": "DESIGN.md section 3 C01",
+    "technique": "explicit-state enumeration of all control/data/release sequences up to a depth on every catalogue pipe (real code), end-state accounting by counting managers, heap-block tracker, neighbour refcounts and ASan",
+    "level_text": "Every operation sequence up to the stated depth on each catalogue pipe, with recording neighbours, for pool depths 0 and 2. After the history everything the application holds is released and the mock event loop is run until quiescent; then: every heap block allocated during the history is gone (sanitizer malloc/free hooks), the counting umem manager saw no leak / double free / overrun, no uref is live or was freed twice (counting uref manager), every sink and the probe were released exactly as often as they were used (never entered after their last release), every manager is back to its creator's single reference, and ASan saw no use after free. Bounded, not a proof.",
+    "level_note": _CAT_NOTE + " With pool depth 2 a stale access to a recycled structure is invisible to ASan; the same history is run with pool depth 0.",
+    "jobs": {"quick": _cat_jobs("C01", "quick"), "thorough": _cat_jobs("C01", "thorough")},
+    "rule": "state = one operation history (no merging); non-trivial = histories in which at least one buffer reached a sink",
+    "bounds": _CAT_BOUNDS,
+    "assumptions": DEFAULT_ASSUME + ["inputs are only sent after the pipe accepted a flow definition (ownership / protocol rules respected by the harness)"],
+    "job_timeout": {"quick": 300, "thorough": 1500},
+}
+CHECKS["C04"] = {
+    "engine": "pipex", "design_ref": "DESIGN.md section 3 C04",
+    "technique": "explicit-state enumeration of all control/data/release sequences up to a depth on every catalogue pipe (real code) with accepting/rejecting recording sinks; ordered event-log automaton and sink-log rules",
+    "level_text": "Same enumeration as C01. On the recording probe's ordered log (log messages included), per pipe and subpipe: first non-log event is 'ready', exactly one 'dead', nothing at all after 'dead', every pipe that became ready is dead after teardown. On each recording sink's log: no buffer before an accepted flow definition, none while the last answer was a rejection, the definition offered has the expected prefix; for one-to-one and duplicating pipes additionally: the last accepted definition is the current one and a new set_flow_def precedes the first buffer after every (re)connection and every change of definition. Bounded, not a proof.",
+    "level_note": _CAT_NOTE,
+    "jobs": {"quick": _cat_jobs("C04", "quick"), "thorough": _cat_jobs("C04", "thorough")},
+    "rule": "state = one operation history (no merging); non-trivial = histories in which at least one buffer reached a sink",
+    "bounds": _CAT_BOUNDS,
+    "assumptions": DEFAULT_ASSUME + ["'touches its output' is read as: sends it a flow definition or a buffer"],
+    "job_timeout": {"quick": 300, "thorough": 1500},
+}
+CHECKS["C05"] = {
+    "engine": "pipex", "design_ref": "DESIGN.md section 3 C05",
+    "technique": "explicit-state enumeration of all input/control sequences up to a depth on every pass-through / split / buffering catalogue pipe (real code); sequence numbers in payload and attribute checked at recording sinks against the documented transformation and a model of the output contract",
+    "level_text": "Same enumeration as C01 (buffers of 0, 2, 3 and 5 octets, one or two segments, dated). Every buffer seen by a sink must be one that was input, at most once per sink, in input order, with exactly the documented change (identity; skip offset removed; octet pairs swapped; delay added to the three dates; attributes added; match_attr predicate) on payload, attributes, dates and flags; one-to-one and duplicating pipes deliver during the input call or never, to exactly the sinks a model of the output contract names (definition stored, output connected, definition accepted) - so a lost, extra or misrouted buffer is caught; holding pipes (time_limit, genaux, buffer, rate_limit, queue sink + source) keep arrival order and, when the output stays connected and accepting, deliver everything once the loop is quiescent; whatever is still held at the end is freed (accounting as in C01). Bounded, not a proof.",
+    "level_note": _CAT_NOTE + " Chains of several pipes are not enumerated here.",
+    "jobs": {"quick": _cat_jobs("C05", "quick", [r for r in CAT_ROWS if r not in ("agg", "chunk", "ts_sync", "ts_check", "ts_align")]),
+             "thorough": _cat_jobs("C05", "thorough", [r for r in CAT_ROWS if r not in ("agg", "chunk", "ts_sync", "ts_check", "ts_align")])},
+    "rule": "state = one operation history (no merging); non-trivial = histories in which at least one buffer reached a sink",
+    "bounds": _CAT_BOUNDS,
+    "assumptions": DEFAULT_ASSUME + ["skip offsets never exceed the buffer size (undefined by the documentation)"],
+    "job_timeout": {"quick": 300, "thorough": 1500},
+}
+CHECKS["C20"] = {
+    "engine": "pipex", "design_ref": "DESIGN.md section 3 C20",
+    "technique": "explicit-state enumeration of all setter/getter/data sequences up to a depth on every catalogue pipe (real code), twice in lock-step: one instance with every getter called after every step, one without; last-accepted-value model and differential comparison of the sinks' logs",
+    "level_text": "Same enumeration as C01, on two identical instances of the pipe. On the first, after every step every getter of the pipe is called (skip offset, delay, setattr/setflowdef dictionary, aggregate/ts_sync/ts_check output size, chunk mtu+align, sync count, time limit, genaux getattr, buffer max/low/high, rate limit + duration, queue-sink max length and pseudo-output, output, flow definition) and must return the last value whose setter succeeded (values the setter refuses are part of the alphabet); the second instance gets no getter call at all. Setter results must agree between the two, and at the end the sinks of both must have seen the same definitions and buffers - a getter that changes the pipe shows as a difference. Bounded, not a proof.",
+    "level_note": _CAT_NOTE,
+    "jobs": {"quick": _cat_jobs("C20", "quick", pools=(0,)), "thorough": _cat_jobs("C20", "thorough")},
+    "rule": "state = one operation history (no merging); non-trivial = histories in which at least one buffer reached a sink",
+    "bounds": _CAT_BOUNDS,
+    "assumptions": DEFAULT_ASSUME + ["genaux's initial getattr is an inline function (address not comparable across translation units): only values set by the harness are compared"],
+    "job_timeout": {"quick": 300, "thorough": 1500},
 }
